@@ -85,6 +85,8 @@ def run(ctx):
                       "of that class AND all its subclasses", floor=3)
     ctx.rule("R13.b", "the class-level cache is read only by Parameters._cls_parameters (anyone may reset it)", floor=1)
     ctx.rule("R13.c", "every consumer of the namespace goes through _cls_parameters / objects()", floor=6)
+    ctx.rule("R13.d", "the memo is computed by walking the class's own MRO base-first and reading each class' __dict__ (so it agrees with attribute lookup, also in diamonds); "
+                      "it is never assembled from other classes' memos", floor=1)
     ctx.not_decided += ["identity/equality of `.param[name]` and the governing descriptor after arbitrary histories (follows from R13.a-c but is not itself executed)"]
 
     sites = 0
@@ -171,3 +173,38 @@ def run(ctx):
             ctx.ok("R13.c", f, f.node, "reads parameters through _cls_parameters/objects()")
         else:
             ctx.fail("R13.c", f, f.node, "namespace consumer does not go through _cls_parameters/objects()")
+
+    # ---------------------------------------------------------------- R13.d
+    cp = ctx.repo.method(PARAMETERS, "_cls_parameters")
+    loops = [st for st in ast.walk(cp.node) if isinstance(st, ast.For)]
+    mro_loops = []
+    for lp in loops:
+        it = norm(lp.iter).replace(" ", "")
+        base_first = it in ("classlist(cls)", "reversed(cls.__mro__)", "cls.__mro__[::-1]", "inspect.getmro(cls)[::-1]", "reversed(cls.mro())", "cls.mro()[::-1]", "reversed(inspect.getmro(cls))")
+        derived_first = it in ("cls.__mro__", "cls.mro()", "inspect.getmro(cls)", "classlist(cls)[::-1]", "reversed(classlist(cls))")
+        if base_first or derived_first:
+            mro_loops.append((lp, base_first))
+    other_memo = [a for a in ast.walk(cp.node) if isinstance(a, ast.Attribute) and a.attr in ("_cls_parameters",) and norm(a.value) != "self_"] + \
+                 [c for c in ast.walk(cp.node) if isinstance(c, ast.Call) and isinstance(c.func, ast.Attribute) and c.func.attr in ("objects", "_cls_parameters")]
+    partial = [lp for lp in loops if "__bases__" in norm(lp.iter)]
+    if other_memo or partial:
+        bad = (other_memo or partial)[0]
+        ctx.fail("R13.d", cp, bad, "the `.param` memo is assembled from the bases' memos / __bases__ instead of the class's own MRO: in a diamond an inherited entry can overwrite "
+                                   "the override that attribute lookup picks", key=cp.qualname + "::not-mro-walk",
+                 input="class Root: x; class Left(Root); class Right(Root): x=override; class Both(Left, Right) -> Both.param['x'] is Root.x, getattr picks Right.x")
+    elif not mro_loops:
+        ctx.fail("R13.d", cp, cp.node, "_cls_parameters no longer walks the MRO of the class (classlist(cls) / cls.__mro__)", key=cp.qualname + "::no-mro-walk")
+    else:
+        lp, base_first = mro_loops[0]
+        var = norm(lp.target)
+        reads_dict = any(isinstance(a, ast.Attribute) and a.attr == "__dict__" and norm(a.value) == var for a in ast.walk(lp))
+        stores = [st for st in ast.walk(lp) if isinstance(st, ast.Assign) and isinstance(st.targets[0], ast.Subscript)]
+        guarded = any(isinstance(i, ast.If) and ("not in" in norm(i.test)) for i in ast.walk(lp)) or any(
+            isinstance(c, ast.Call) and isinstance(c.func, ast.Attribute) and c.func.attr == "setdefault" for c in ast.walk(lp))
+        filt = any(isinstance(c, ast.Call) and norm(c.func) == "isinstance" and "Parameter" in norm(c) for c in ast.walk(lp))
+        ok = reads_dict and filt and ((base_first and stores and not guarded) or ((not base_first) and guarded))
+        if ok:
+            ctx.ok("R13.d", cp, lp, "walks %s and takes the Parameter entries of each class' __dict__ (%s wins)" % (norm(lp.iter), "later = more derived class" if base_first else "first = most derived class"))
+        else:
+            ctx.fail("R13.d", cp, lp, "the MRO walk of _cls_parameters does not let the most derived declaration win (order %s, overwrite guard %s)" % (
+                "base-first" if base_first else "derived-first", guarded), key=cp.qualname + "::wrong-precedence")
